@@ -299,9 +299,13 @@ func run() int {
 			replI[k] = v
 		}
 		var ierr error
+		atomicSet := map[string]bool{}
+		for _, n := range spec.AtomicFuncs {
+			atomicSet[n] = true
+		}
 		packages.Visit(pkgs, nil, func(p *packages.Package) {
 			if want[p.PkgPath] && ierr == nil {
-				ierr = instrumentPackage(p, instrDir, replI, &ist)
+				ierr = instrumentPackage(p, instrDir, replI, &ist, atomicSet)
 			}
 		})
 		if ierr != nil {
